@@ -25,6 +25,14 @@ def tableOf (l : List (String × String)) : List (String × Rule) :=
 
 /-- concatMaps treats a nil interface value as absent (never hands it to reflect) -/
 def nilGuard : Bool := true
+/-- that guard is `val.Kind() == reflect.Interface && val.IsNil()` (kind tested first) -/
+def guardKindFirst : Bool := true
+/-- recursion into nested maps is decided by `….Type().Elem().Kind() == reflect.Map` -/
+def recurseByKind : Bool := true
+/-- `ConcatItems` returns T's zero value for a nil interface result (the repaired behaviour,
+    fixes/C14-nil-interface-result.diff); NOT part of `facts_match`: the theorems about `any`
+    chunks are stated for both values of the regenerated fact -/
+def nilResultGuard : Bool := true
 def roleCheck : Bool := true
 def nameCheck : Bool := true
 def tcidCheck : Bool := true
@@ -32,10 +40,12 @@ def tcIdCheck : Bool := true
 def tcTypeCheck : Bool := true
 def tcNameCheck : Bool := true
 
-def mkCfg (tbl : List (String × String)) (nilGuard r n t i ty nm : Bool) : Cfg :=
-  { table := tableOf tbl, nilAbsent := nilGuard, roleCheck := r, nameCheck := n, tcidCheck := t,
+def mkCfg (tbl : List (String × String)) (nilGuard kindFirst byKind nilRes r n t i ty nm : Bool) : Cfg :=
+  { table := tableOf tbl, nilAbsent := nilGuard, guardKindFirst := kindFirst, recurseByKind := byKind,
+    nilResultGuard := nilRes, roleCheck := r, nameCheck := n, tcidCheck := t,
     tcIdCheck := i, tcTypeCheck := ty, tcNameCheck := nm }
 
-def cfg : Cfg := mkCfg concatFuncs nilGuard roleCheck nameCheck tcidCheck tcIdCheck tcTypeCheck tcNameCheck
+def cfg : Cfg := mkCfg concatFuncs nilGuard guardKindFirst recurseByKind nilResultGuard roleCheck nameCheck tcidCheck
+  tcIdCheck tcTypeCheck tcNameCheck
 
 end EinoV.Expected.C14
